@@ -58,6 +58,13 @@ let run_scenario (ops : string list) : string =
     | _ -> "?bad-op") ops in
   String.concat "\t" outs
 
+(* the tokenizer handed to extend_bangbang: the L3 lines holding !! are plain blank-separated
+   words, for which parse_line is the blank splitter (untagged tokens) *)
+let blank_tokens (s : n list) =
+  let words = List.filter (fun w -> w <> "") (String.split_on_char ' ' (bytes_of_str s)) in
+  List.map (fun w -> (TNone, str_of_bytes w)) words
+let bang prev t = extend_bangbang blank_tokens prev t
+
 let () =
   iter_lines (fun l ->
     match split_tab l with
@@ -65,11 +72,9 @@ let () =
     | ["like"; p; t] ->
         print_endline (if like (str_of_field p) (str_of_field t) then "1" else "0")
     | "sess" :: typed ->
-        let bang _ t = t in
         let r = session_run bang [] (List.map str_of_field typed) in
         print_endline (String.concat "\t" (List.map e r))
     | "procs" :: ps ->
-        let bang _ t = t in
         let procs = List.map (fun f ->
           match List.map str_of_bytes (String.split_on_char us (dec_bytes f)) with
           | k :: rest when bytes_of_str k = "I" -> Interactive rest
